@@ -74,6 +74,9 @@ def run(ctx):
     try:
         log(ctx.run_harness(builds[0][1], ["c18fresh", "-out", tdir, "-seed", str(ctx.seed)], timeout=1500).strip().splitlines()[-1])
         ctx.validate_traces("C02_group", "TraceEdwards", sorted(glob.glob(os.path.join(tdir, "c18fresh_*.ndjson"))))
+        # the same probe for the lazily initialised round constants of the MiMC packages (package-level Sum first), judged by
+        # the definition of the hash in C14's trace specification
+        ctx.validate_traces("C14_hashes", "TraceHashes", sorted(glob.glob(os.path.join(tdir, "c18freshmimc_*.ndjson"))))
     except Crash as ex:
         ctx.crash_violation(ex, "fresh-process probe")
     ctx.samples = [{"trace": "c18_all.ndjson", "events": open(combined).readlines()[2:5]}]
